@@ -29,16 +29,18 @@ MCTreeOf ==
                           F(Nm("C.sol", TRUE, FALSE), "c3"),
                           F(Nm("N.sol", TRUE, FALSE), "c7")>>],
      contracts |-> [entries |-> <<F(Nm("B.sol", TRUE, FALSE), "c2")>>],
-     E |-> [entries |-> <<>>]]
+     E |-> [entries |-> <<>>],
+     \* a target directory whose own name looks like a contract (concretely ../Vault.sol): it is a directory all the same
+     S |-> [entries |-> <<F(Nm("D.sol", TRUE, FALSE), "c1"), F(Nm("D.t.sol", TRUE, TRUE), "c2")>>]]
 
 Lists(cat) == IF cat = "qa" THEN {<<>>, <<"q1">>, <<"zz">>}
               ELSE LET a == MCCatalogue[cat][1]
                        b == MCCatalogue[cat][2]
                    IN {<<>>, <<a>>, <<b, a>>, <<a, a>>, <<a, "zz">>}
 Tomls == {[path |-> p, vulnerabilities |-> v, optimizations |-> o, qa |-> q] :
-            p \in {"P", "contracts", "Q"}, v \in Lists("vulnerabilities"), o \in Lists("optimizations"), q \in Lists("qa")}
+            p \in {"P", "contracts", "Q", "S"}, v \in Lists("vulnerabilities"), o \in Lists("optimizations"), q \in Lists("qa")}
 Inputs == {[flag |-> f, toml |-> t, contracts |-> c] :
-             f \in {"", "P", "E", "Q", "contracts"}, t \in {<<>>} \cup {<<x>> : x \in Tomls}, c \in BOOLEAN}
+             f \in {"", "P", "E", "Q", "contracts", "S"}, t \in {<<>>} \cup {<<x>> : x \in Tomls}, c \in BOOLEAN}
 
 \* the machine with the negative controls switched in
 BadListOf(i, cat) == IF FallbackAll /\ HasToml(i) /\ Toml(i)[cat] = <<>> THEN MCCatalogue[cat] ELSE ListOf(i, cat)
